@@ -131,10 +131,10 @@ func symmetryCmd(job []byte, out *Out) error {
 					continue
 				}
 				type variant struct {
-					y     []bool
-					taup  int
-					aprm  int
-					bprm  int
+					y    []bool
+					taup int
+					aprm int
+					bprm int
 				}
 				var vs []variant
 				switch row.Tau {
@@ -196,6 +196,25 @@ func symmetryCmd(job []byte, out *Out) error {
 						}
 					}
 					out.Emit(ev)
+					// the same relation through the byte-oriented entry points when the length allows it
+					if n%8 == 0 && !(in.AllR && row.Tau == "rotate" && v.taup%16 != 1) {
+						evb := R{"ev": "sym", "id": in.ID, "t": row.T, "tau": row.Tau, "rel": row.Rel, "param": pr, "taup": v.taup, "n": n, "mode": in.Mode, "seed": in.Seed, "panic": "", "bytes": true}
+						func() {
+							defer func() {
+								if p := recover(); p != nil {
+									evb["panic"] = fmt.Sprint(p)
+								}
+							}()
+							evb["a"] = bytesAt(i, v.aprm, bitsToBytes(x))
+							evb["b"] = bytesAt(i, v.bprm, bitsToBytes(v.y))
+						}()
+						for _, k := range []string{"a", "b"} {
+							if _, ok := evb[k]; !ok {
+								evb[k] = rr(0, 0, 0, 0)
+							}
+						}
+						out.Emit(evb)
+					}
 				}
 			}
 		}
